@@ -11,7 +11,15 @@ cd "$WT"
 if ! git apply "$SEED/patch.diff" 2> "$SEED/val_apply.log"; then APPLY=fail; else APPLY=ok; fi
 /venv/bin/python "$SEED/demo.py" > "$SEED/val_mut.log" 2>&1; MUT=$?
 if [ "${2:-suite}" = "suite" ]; then
-  nice -n 5 timeout 2400 /venv/bin/python -m pytest -q -p no:cacheprovider --timeout=240 -q > "$SEED/val_suite.log" 2>&1; SUITE=$?
+  # the suite is run in two parts: on this shared machine the first MultiThread combination test sometimes fails its timing assertion and then
+  # hangs pytest in teardown; it is deselected from the main run and run on its own (up to three attempts) afterwards
+  HANGER='pynenc_tests/integration/combinations/test_app_combinations.py::test_task_execution[SQLite MultiThread JsonPickle]'
+  nice -n 5 timeout 2400 /venv/bin/python -m pytest -q -p no:cacheprovider --timeout=240 -q --deselect "$HANGER" > "$SEED/val_suite.log" 2>&1; SUITE=$?
+  LONE=1
+  for attempt in 1 2 3; do
+    timeout 300 /venv/bin/python -m pytest -q -p no:cacheprovider --timeout=120 -q "$HANGER" > "$SEED/val_suite_lone.log" 2>&1 && { LONE=0; break; }
+  done
+  if [ $SUITE -eq 0 ] && [ $LONE -ne 0 ]; then SUITE=1; echo "FAILED $HANGER - alone" >> "$SEED/val_suite.log"; fi
   SUMMARY=$(grep -E "passed|failed" "$SEED/val_suite.log" | tail -1)
   if [ $SUITE -ne 0 ]; then
     # the machine is shared: rerun only the failed tests, alone, before concluding anything
